@@ -348,7 +348,16 @@ pub fn suite_clirt(dir: &str, seed: u64, thorough: bool, st: &mut Stats) {
         let line = compress_line(&c, &archive).replacen("compress ", "compresscli ", 1);
         if !big || c.src.len() < 1_500_000 { lines.push((line, format!("OK {}", hex(&archive)))); }
         // C01: clone (local) reproduces the source
-        let (code3, log3) = s.bita(&["clone", "--verify-output", "out.cba", "clone.bin"], None, &[]);
+        // (onto a fresh path, or with --force-create over an existing file of other content and length; with and without
+        // the final verification)
+        let cargs: Vec<&str> = match i % 4 {
+            0 => vec!["clone", "out.cba", "clone.bin"],
+            1 => vec!["clone", "--verify-output", "out.cba", "clone.bin"],
+            2 => { s.write("clone.bin", &vec![0xEEu8; c.src.len() + 123]); vec!["clone", "--force-create", "out.cba", "clone.bin"] }
+            _ => { s.write("clone.bin", &vec![0x5Au8; c.src.len() / 2 + 1]); vec!["clone", "-f", "--verify-output", "out.cba", "clone.bin"] }
+        };
+        st.count(&format!("clirt/clone-onto/{}", ["fresh", "fresh+verify", "existing-longer", "existing-shorter+verify"][i % 4]));
+        let (code3, log3) = s.bita(&cargs, None, &[]);
         let cl = s.read("clone.bin");
         if code3 != 0 || cl.as_deref() != Some(&c.src[..]) {
             st.violation("C01", &format!("clone of a compressed archive does not reproduce the source (exit {}): {}", code3, log3.lines().last().unwrap_or("")), &replay);
@@ -559,7 +568,10 @@ pub fn suite_clirefuse(dir: &str, seed: u64, _thorough: bool, st: &mut Stats) {
     let base = Scn::new("rfbase", 0);
     // a source with repeated content (its unique chunks are much smaller than the source itself)
     let blk = gen_data(&mut rng, 1000).0;
-    let src: Vec<u8> = (0..4).flat_map(|_| blk.iter().copied()).collect();
+    // ... and with a run of zeros spanning several chunks in the middle (chunks an output may seem to hold already)
+    let mut src: Vec<u8> = (0..2).flat_map(|_| blk.iter().copied()).collect();
+    src.extend(std::iter::repeat(0u8).take(3000));
+    src.extend((0..2).flat_map(|_| blk.iter().copied()));
     base.write("src.bin", &src);
     let (code, _) = base.bita(&["compress", "-i", "src.bin", "--min-chunk-size", "64", "--avg-chunk-size", "256", "--max-chunk-size", "1024", "--hash-length", "8", "a.cba"], None, &[]);
     assert_eq!(code, 0);
